@@ -145,7 +145,10 @@ def handleFields (j : Json) : Except String Verdict := do
         let expect := fs.map fun f => match f with
           | .mk n .null _ m => Field.mk n .null true m
           | f => f
-        if got != expect then specFail := specFail ++ [(s!"C09/{key}/altered/{firstCtor fs}", s!"{key}: accepted fields differ from the given ones")]
+        -- a field object the crate's own validation rules (validateField, the model of validate_field) reject must
+        -- not be accepted
+        if !(acceptForeignList fs).isOk then specFail := specFail ++ [(s!"C09/{key}/invalid-accepted/{blame.getD (firstCtor fs)}", s!"{key}: a field object that does not denote a valid schema was accepted")]
+        else if got != expect then specFail := specFail ++ [(s!"C09/{key}/altered/{firstCtor fs}", s!"{key}: accepted fields differ from the given ones")]
       else if cls == "err" && inDomain then
         specFail := specFail ++ [(s!"C09/{key}/rejected/{firstCtor fs}", s!"{key}: a valid schema was rejected")]
   -- 2. arrow / arrow2 field conversions
